@@ -170,7 +170,11 @@ def main():
             b.update(h.get("bounds", {}).get("thorough", {}))
         spec = {"pkg": h["pkg"], "func": h["func"], "bounds": b}
         if "max_paths" in h:
-            spec["max_paths"] = h["max_paths"]
+            mp = h["max_paths"]
+            if isinstance(mp, dict):
+                mp = mp.get(tier)
+            if mp:
+                spec["max_paths"] = mp
         if "max_violations" in h:
             spec["max_violations"] = h["max_violations"]
         ts = h.get("time_s")
